@@ -1165,7 +1165,7 @@ func main() {
 	}
 	r := gen.NewRand(f.Seed)
 	// unit correspondences: ignore matcher, stripComponents, member filter
-	for i := 0; i < f.N(1500, 15000); i++ {
+	for i := 0; i < f.N(800, 15000); i++ {
 		c := genDirCase(r, "walk")
 		file := genIgnoreFile(r, c.Root)
 		var paths []string
@@ -1175,28 +1175,28 @@ func main() {
 		}
 		e.runIgn(file, gen.Pick(r, paths))
 	}
-	for i := 0; i < f.N(1500, 15000); i++ {
+	for i := 0; i < f.N(800, 15000); i++ {
 		nm := genMemberName(r, gen.Pick(r, []string{"", "top"}))
 		if r.Chance(1, 10) {
 			nm = gen.Pick(r, []string{"", "/", "a", "a/", "//", "a//b", "a/b/", "/a", "a/b/c/d/e"})
 		}
 		e.runStrip(nm, r.Range(-1, 5))
 	}
-	for i := 0; i < f.N(100, 600); i++ {
+	for i := 0; i < f.N(60, 600); i++ {
 		e.runArch(genArchCase(r, "members"))
 	}
 	// the walk alone (real newIgnoreMatcher + fileAggregator.add under filepath.Walk)
-	for i := 0; i < f.N(300, 1500); i++ {
+	for i := 0; i < f.N(200, 1500); i++ {
 		e.runDir(genDirCase(r, "walk"))
 	}
 	// end to end: real indexArg / archive.Index, shards read back
-	for i := 0; i < f.N(80, 400); i++ {
+	for i := 0; i < f.N(50, 400); i++ {
 		e.runDir(genDirCase(r, "dir"))
 	}
-	for i := 0; i < f.N(100, 500); i++ {
+	for i := 0; i < f.N(60, 500); i++ {
 		e.runArch(genArchCase(r, "arch"))
 	}
-	for i := 0; i < f.N(60, 400); i++ {
+	for i := 0; i < f.N(40, 400); i++ {
 		e.runArch(genGarbage(r))
 	}
 }
